@@ -177,15 +177,19 @@ fn collect_types_to_bind(
     let types_from_fields = |fields: &Punctuated<syn::Field, _>| -> Vec<(Type, bool)> {
         fields
             .iter()
-            .filter(|field| {
+            // Fields encoded as another type are described by that type.
+            .map(|f| {
+                let ty = utils::maybe_encoded_as(f).unwrap_or_else(|| f.ty.clone());
+                (ty, utils::is_compact(f))
+            })
+            .filter(|(ty, _)| {
                 // Only add a bound if the type uses a generic.
-                type_contains_idents(&field.ty, ty_params)
+                type_contains_idents(ty, ty_params)
                 &&
                 // Remove all remaining types that start/contain the input ident
                 // to not have them in the where clause.
-                !type_or_sub_type_path_starts_with_ident(&field.ty, input_ident)
+                !type_or_sub_type_path_starts_with_ident(ty, input_ident)
             })
-            .map(|f| (f.ty.clone(), utils::is_compact(f)))
             .collect()
     };
 
